@@ -113,7 +113,7 @@ CLAIMS = {
              "whole descriptors (~75 canonical texts of every output type incl. near-twins differing in one key, "
              "threshold, arity, key order, lock, tree shape or internal key; parsed by evaluating the parser): == holds "
              "exactly for identical texts, cmp is Equal exactly then, antisymmetric and a linear order on the family, "
-             "clones are equal, and the streams fed to a Hasher coincide exactly for equal descriptors (~5600 pairs).",
+             "clones are equal, and equal descriptors feed the same stream to a Hasher (~5600 pairs).",
         note="Trusted: model of the generic tree iterators in iter/tree.rs; key/hash types' own Eq/Ord/Hash; rustc THIR. "
              "Deep trees follow from per-node coverage + arity via the generic pre-order traversal (not re-proved).",
         tech=STATIC + "derive census + payload-coverage decision table extracted from impl bodies (THIR evaluation on model values)",
